@@ -51,6 +51,7 @@ def _handler_accepts(node: ast.If, key: str) -> set:
 
 
 def run(rep: core.Report):
+    _r18f(rep)
     rep.rule("R18a", "table closure: every option dest is forwarded (or handled directly), every forwarded key has a parse_conf handler, every parameter has a set_settings consumer calling an existing setter, every settings.<x> read by the scripts exists", 300)
     rep.rule("R18b", "encoding agreement: what read_options stores for a key (.true./.false. literal, joined list, raw typed value) is what the key's parse_conf handler parses; store_false flags forward the negated literal", 90)
     rep.rule("R18c", "guard kind: a numeric option (type=int|float, default None) is forwarded under 'is not None', so an explicit 0 reaches the settings exactly as the tag 'KEY = 0' does", 15)
@@ -196,6 +197,64 @@ def run(rep: core.Report):
     rep.extra["tables"] = {"dests": len(dests), "forwards": len(fw), "handlers": len(handlers), "parameters": len(produced), "consumers": len(cons), "settings_keys": len(all_attrs), "documented_tags": len(docs)}
 
 
+
+def _r18f(rep):
+    """The command defaults (argparse_control: is_nac, fc_symmetry ... of phonopy-load) reach the settings whether or not
+    a configuration file is read: every two PhonopyConfParser constructions that can occur for the same command (their
+    path conditions do not fix 'load_phonopy_yaml' to opposite values) receive the same default_settings."""
+    rep.rule("R18f", "the presence of a configuration file does not change the command defaults: PhonopyConfParser constructions reachable for the same command (same value of load_phonopy_yaml) get the same default_settings", 2)
+    fn = core.find_def(SCRIPT, "_read_phonopy_settings")
+    flag = None
+    for st in ast.walk(fn):
+        if isinstance(st, ast.Assign) and len(st.targets) == 1 and isinstance(st.targets[0], ast.Name) and "load_phonopy_yaml" in core.src(st.value) and "argparse_control" in core.src(st.value):
+            flag = st.targets[0].id
+    if flag is None:
+        raise AnalysisError("_read_phonopy_settings: the command flag is no longer read from argparse_control['load_phonopy_yaml']")
+
+    def truth_of(test, branch):
+        """value of the flag implied by being in `branch` (True = body, False = orelse) of a test, or None"""
+        if isinstance(test, ast.Name) and test.id == flag:
+            return branch
+        if isinstance(test, ast.UnaryOp) and isinstance(test.op, ast.Not) and isinstance(test.operand, ast.Name) and test.operand.id == flag:
+            return not branch
+        if isinstance(test, ast.BoolOp) and isinstance(test.op, ast.And) and branch:
+            for v in test.values:
+                t = truth_of(v, True)
+                if t is not None:
+                    return t
+        if isinstance(test, ast.BoolOp) and isinstance(test.op, ast.Or) and not branch:
+            for v in test.values:
+                t = truth_of(v, False)
+                if t is not None:
+                    return t
+        return None
+
+    calls = []
+    for c in ast.walk(fn):
+        if isinstance(c, ast.Call) and core.src(c.func) == "PhonopyConfParser":
+            val = None
+            node = c
+            while node is not fn:
+                par = getattr(node, "_parent", None)
+                if par is None:
+                    break
+                if isinstance(par, ast.If):
+                    br = True if node in par.body else (False if node in par.orelse else None)
+                    if br is not None:
+                        t = truth_of(par.test, br)
+                        if t is not None and val is None:
+                            val = t
+                node = par
+            ds = [core.src(k.value) for k in c.keywords if k.arg == "default_settings"]
+            calls.append((c, val, ds[0] if ds else None))
+    if len(calls) < 2:
+        raise AnalysisError(f"_read_phonopy_settings: {len(calls)} PhonopyConfParser constructions found, at least 2 confirmed by reading")
+    for k, (c, val, ds) in enumerate(calls):
+        clash = [c2 for c2, v2, d2 in calls[:k] + calls[k + 1 :] if (val is None or v2 is None or val == v2) and d2 != ds]
+        rep.instance("R18f", SCRIPT, "_read_phonopy_settings", f"{core.norm(core.src(c), 90)} [command flag {val}]", not clash,
+                     f"this construction passes default_settings={ds}, but {core.norm(core.src(clash[0]), 80) if clash else ''} — reachable for the same command — passes a different one: with a configuration file the command defaults (NAC on, symmetrised force constants for phonopy-load) are not the ones in force without it, so a tag and the equivalent option give different settings", line=c.lineno)
+
+
 def selftest():
     V = []
     b = lambda name, file, old, new, rule, expect="", **kw: V.append(dict(name=name, kind="break", file=file, old=old, new=new, rule=rule, expect=expect, **kw))
@@ -212,4 +271,5 @@ def selftest():
     n("reorder two handlers", SETT, 'if conf_key == "fpitch":', 'if conf_key == "fpitch" and True:')
     n("option read through arg_list.get under is not None", SETT, '        if "rd_temperature" in arg_list:\n            if self._args.rd_temperature is not None:\n                self._confs["random_displacement_temperature"] = (\n                    self._args.rd_temperature\n                )\n', '        rd_temperature = arg_list.get("rd_temperature")\n        if rd_temperature is not None:\n            self._confs["random_displacement_temperature"] = rd_temperature\n')
     b("option merged with its old spelling through 'or'", SETT, '        if "rd_temperature" in arg_list:\n            if self._args.rd_temperature is not None:\n                self._confs["random_displacement_temperature"] = (\n                    self._args.rd_temperature\n                )\n', '        rd_temperature = arg_list.get("rd_temperature") or arg_list.get("temperature")\n        if rd_temperature is not None:\n            self._confs["random_displacement_temperature"] = rd_temperature\n', "R18c", "rd_temperature")
+    b("phonopy-load with --config loses the command defaults", SCRIPT, "                args=args,\n                default_settings=argparse_control,\n            )", "                args=args,\n            )", "R18f", "_read_phonopy_settings")
     return V
